@@ -106,6 +106,31 @@ Section ListObjects.
     | Some k => (run_prefix k cands check 0 arrival, true)
     end.
 
+  (* 6b. finer granularity of trySendObject: the counter increment (objectsFound.Add(1) <= maxResults:
+        a slot is reserved) and the channel send are two steps, and the send is
+            select { case <-ctx.Done(): return false; case channel <- msg: return true }
+        When the consumer loop meanwhile reads one more candidate, sees objectsFound >= maxResults
+        and calls cancel(), a Check goroutine between the two steps may take the ctx.Done() branch:
+        the reserved slot stays empty.  Only sends of RequiresFurtherEval candidates run under the
+        cancellable context, and cancel() needs a candidate beyond the limit-th reservation.
+        [drop] = the reserved sends that lose the select (finding limit_cancel_race). *)
+  Definition status_of (cs : list cand) (o : A) : status :=
+    match find (fun c => eqb (fst c) o) (dedup_cands [] cs) with
+    | Some c => snd c
+    | None => NoFurtherEval
+    end.
+
+  Definition evaluate_racy (cands : list cand) (check : A -> bool) (limit : nat) (arrival : list nat)
+             (drop : A -> bool) : list A :=
+    let reserved := evaluate cands check limit arrival in
+    match limit with
+    | O => reserved
+    | S _ =>
+        if Nat.ltb limit (length (distinct_objs cands))
+        then filter (fun o => negb (drop o && negb (is_nofurther (status_of cands o)))) reserved
+        else reserved
+    end.
+
   (* 7. the pipeline engine as seen by Execute: the object worker's DeduplicatingReceiver lets each
         value through once (outputBuffer.LoadOrStore), and the loop
             for { value, ok := p.Recv(ctx); ...; res.Objects = append(res.Objects, value);
